@@ -57,6 +57,7 @@ class Contexts:
         self.reach = {}
         self.calls = {}
         self._production()
+        self._ready = True
         self._fixpoint()
 
     # -- links between spellings of the same flag, verified on the source ---------------------------------
@@ -109,6 +110,11 @@ class Contexts:
         return f
 
     def ev(self, formula, v, extra=None):
+        if not self.__dict__.get("_ready"):
+            f = self.facts(v)           # production conditions are still being computed: no event-type facts, no caching
+            if extra:
+                f.update(extra)
+            return guards.ev(formula, f)
         ek = tuple(sorted(extra.items())) if extra else None
         mk = (formula, v, ek)
         memo = self.__dict__.setdefault("_memo", {})
